@@ -91,6 +91,15 @@ def run_k(prop, tier, seed, ev, injections, harnesses, jobs=None, mem_gb=None):
             log(f"[{prop}] INCONCLUSIVE: {err[-4000:]}")
             ev.add("kani-build", "kani", "inconclusive", 0, note=err[-1500:])
             return 2
+        # a solver process that dies (memory pressure from its neighbours, address-space limit) ends as ERROR: give each such
+        # harness ONE more run on its own with the whole memory budget before calling it inconclusive
+        again = [h.name for h in sel if res[h.name].status == "ERROR"]
+        if again:
+            log(f"[{prop}] kani: re-running {len(again)} harness(es) that ended in ERROR, one at a time")
+            for name in again:
+                res2, _, err2 = vlib.run_kani(scr, [name], jobs=1, harness_timeout_s=tmo, mem_gb=44)
+                if not err2 and res2[name].status != "ERROR":
+                    res[name] = res2[name]
         for h in sel:
             r = res[h.name]
             info = dict(bounds=h.bounds, desc=h.desc, cbmc_checks=r.checks_total,
